@@ -217,13 +217,26 @@ def run(env, res, case, monitors):
                                      f'step {i} {op}: rejected call ({type(raised).__name__}) changed the on-disk state',
                                      step=i, op=op, descr_before=old_descr, descr_after=descr_state(path))
                     elif raised is None:
-                        return  # not this monitor's business; history ends
+                        # not judged here, but the state left behind is: evaluate the format
+                        # monitors once more, then end the history (the model is unknown now)
+                        if 'ifd_api' in monitors:
+                            ifd_vs_api(res, D, path, a)
+                        if 'readme' in monitors and not res.fails:
+                            check_array_readme(res, D, path)
+                        res.nontrivial = nvalid >= 1
+                        return
                 else:
                     if raised is not None:
                         if 'model' in monitors:
                             res.fail(f'model:valid-call-raised:{op}:{type(raised).__name__}',
                                      f'step {i} {op}: valid call raised {type(raised).__name__}: {str(raised)[:200]}',
                                      step=i, op=op, len_before=int(ref.shape[0]), shape=list(ref.shape))
+                        else:
+                            if 'ifd_api' in monitors:
+                                ifd_vs_api(res, D, path, a)
+                            if 'readme' in monitors and not res.fails:
+                                check_array_readme(res, D, path)
+                        res.nontrivial = nvalid >= 1
                         return
                     changed = not bits_equal(expected, ref)
                     if 'prefix' in monitors and new_bytes is not None:
